@@ -14,6 +14,7 @@ import (
 	"sort"
 	"strings"
 	"testing"
+	"time"
 
 	"github.com/cloudflare/circl/zz_verif/vlib"
 	"pgregory.net/rapid"
@@ -269,16 +270,22 @@ func Run(t *testing.T, registry []Entry) {
 func Sweep(t *testing.T, registry []Entry) {
 	defer vlib.Done()
 	PrefixSweep(t, registry)
-	total := 0
+	total, cut := 0, 0
 	for ei, e := range sortedRegistry(registry) {
 		e := e
 		if ei%vlib.NShards != vlib.Shard {
 			continue
 		}
-		total += slotSweep(&directTB{t: t}, &e)
+		t0 := time.Now()
+		r, c := slotSweep(&directTB{t: t}, &e)
+		if dt := time.Since(t0); dt > 500*time.Millisecond {
+			t.Logf("slot sweep of %s: %d cases in %v", e.Name, r, dt.Round(time.Millisecond))
+		}
+		total += r
+		cut += c
 	}
 	vlib.Exhaustive("c10-slot-boundary-values", int64(total),
-		"every slot position (k·w, 1+k·w from the start, k·w from the end and after length fields; capped per encoding in quick) of the valid encodings × {m-1, m, m+1, 2m} × {big, little endian} × free top-bit flag combinations, m over the moduli and group orders of slots.go (all families at the first/last slot, the entry's own families at every slot) and the entry's own moduli; packed-coefficient patterns q-1, q, q+1 for Kyber/Dilithium encodings")
+		fmt.Sprintf("%d lowest-priority cases cut by the per-entry budget; ", cut)+"every slot position (k·w, 1+k·w from the start, k·w from the end and after length fields; capped per encoding in quick) of the valid encodings × {m-1, m, m+1, 2m} × {big, little endian} × free top-bit flag combinations, m over the moduli and group orders of slots.go (all families at the first/last slot, the entry's own families at every slot) and the entry's own moduli; packed-coefficient patterns q-1, q, q+1 for Kyber/Dilithium encodings")
 }
 
 // PrefixSweep is the truncation / extension part of Sweep.
